@@ -126,7 +126,8 @@ def run_hist(run, pid):
     mism, find, acc, stats, ok, err = model(hl)
     res.update({"hist_lines": hl, "scripts": scripts, "props": props, "mismatches": mism, "acc": acc,
                 "stats": stats, "model_ok": ok, "model_err": err,
-                "hung": [l for l in lines if l.startswith("HUNG\t") or l.startswith("HERR\t")]})
+                "hung": [l for l in lines if l.startswith("HUNG\t") or l.startswith("HERR\t")],
+                "env_noise": [l for l in lines if l.startswith("HENV\t")]})
     return res
 
 
@@ -158,6 +159,10 @@ def report_hist_common(run, res, pid):
     if res["rc"] != 0 or not res["model_ok"] or not res["hist_lines"]:
         run.violation("harness-failed", {"rc": res["rc"], "model_err": res["model_err"], "tail": res["lines"][-20:]},
                       "%s: history harness or model driver failed to run" % pid, True)
+    n_all = len(res["hist_lines"]) + len(res["env_noise"])
+    if len(res["env_noise"]) > max(3, n_all // 25):
+        run.violation("harness-noisy", {"env_noise": res["env_noise"][:10]},
+                      "%s: %d of %d histories were disturbed by foreign port use on this machine" % (pid, len(res["env_noise"]), n_all), True)
     for l in res["hung"]:
         t = l.split("\t")
         sc = res["scripts"].get(t[1], {}).get("script", {"name": t[1]})
@@ -231,5 +236,8 @@ def hist_coverage(run, res, extra_rule=""):
         "trace_events": st.get("hist_events", 0),
         "inconclusive_traces": st.get("hist_inconclusive", 0),
         "parks_matched": parks_hit, "parks_missed": parks_missed,
+        "histories_discarded_port_taken_by_another_process": len(res["env_noise"]),
+        "released_checks_skipped_port_held_by_another_process":
+            sum(int(v["stats"].split("port_noise=")[1].split()[0]) for v in res["scripts"].values() if "port_noise=" in v["stats"]),
         "property_verdicts": {"ok": sum(1 for p in res["props"] if p["ok"]), "fail": sum(1 for p in res["props"] if not p["ok"])},
     })
